@@ -109,8 +109,22 @@ def run_case(tape, tier):
         descs.append(d)
         if d["framing"] == "close":
             break
+    limit_cut = None
+    if tape.flag("line_at_the_limit", 1, 400) and msgs:
+        # a header line exactly as long as the parser allows (65536 bytes) or one short of it, ended by CRLF, with a read boundary
+        # between its CR and its LF: legal whole, so legal in any split
+        b0 = msgs[0]
+        k = b0.find(b"\r\n")
+        if k >= 0 and b"\n" not in b0[:k]:
+            n = tape.pick("limit_len", [65536, 65535, 65536])
+            line = b"X-Limit: " + b"a" * (n - 9)
+            msgs[0] = b0[:k + 2] + line + b"\r\n" + b0[k + 2:]
+            limit_cut = k + 2 + len(line) + 1
+            res.faults["line_at_the_size_limit"] += 1
     data = b"".join(msgs)
     cuts = httpgen.partition(tape, data, httpgen.interesting_points(data))
+    if limit_cut is not None:
+        cuts = sorted(set(list(cuts) + [limit_cut]))
     dropped_before = kind == "response" and tape.flag("dropped_while_idle_before", 1, 4)
     if dropped_before:
         res.faults["connection_dropped_while_idle_before"] += 1
